@@ -354,3 +354,24 @@ func Probe(name string) {
 }
 
 var _ = sync.Mutex{}
+
+// NameCurrent gives the calling goroutine (one that was not created by
+// instrumented code, e.g. a server library's per-connection goroutine) a
+// deterministic task name before it enters instrumented code. Without it such
+// goroutines are named by their order of arrival at their first yield, which is
+// not reproducible when two of them start at the same time.
+func NameCurrent(name string) {
+	s := cur.Load()
+	if s == nil {
+		return
+	}
+	g := goid()
+	if g == s.ctrl {
+		return
+	}
+	s.mu.Lock()
+	n := s.extSeq[int(HashString(name)&0x3fffffff)+2000000]
+	s.extSeq[int(HashString(name)&0x3fffffff)+2000000] = n + 1
+	s.tasks[g] = &Task{Name: fmt.Sprintf("%s#%d", name, n), g: g, children: map[int]int{}, Kind: "ext"}
+	s.mu.Unlock()
+}
